@@ -64,6 +64,10 @@ def base_args(rng, kind, table=None):
             a = {"vdrop": u(0.2, 0.8), "rt": u(1, 50)}
         else:
             a = {"rs": u(0.01, 0.3), "ig": u(1e-5, 1e-3), "iq": u(1e-5, 1e-4), "rt": u(1, 50)}
+            if rng.random() < 0.3:
+                # the documented "float | list" form (on the pinned tree such a bridge is accepted and then cannot be
+                # solved - TypeError -, identically for both signs; if it ever solves, the sign must not matter)
+                a["rs"] = [a["rs"], u(0.01, 0.3)]
     return a
 
 
@@ -324,6 +328,9 @@ def run(ctx, case):
                 ctx.count("diagnostic", "params() shows the raw negative value (%s)" % ",".join(case["negate"]))
         # accepted => physical (both variants)
         for d, a in ((d1, pos), (d2, neg)):
+            if kind == "Rectifier" and isinstance(a.get("rs"), list):
+                ctx.count("diagnostic", "Rectifier with list rs solved (no reference model for that form)")
+                continue
             em = H.Emit(ctx, accept=("energy.loss_range", "energy.eff", "phys.no_gain"), prefix="accepted:",
                         extra={"probe": {"V": V, "I": I}})
             n0 = sum(ctx.clauses.get(k, 0) for k in ctx.clauses if k.startswith("accepted:"))
